@@ -46,6 +46,10 @@ func init() {
 func genC20(seed uint64, tier string) *plan.Plan {
 	r := rand.New(rand.NewPCG(seed, 0xc20))
 	pl := &plan.Plan{Cfg: map[string]int64{}}
+	if r.IntN(8) == 0 {
+		genC20Pipeline(r, pl)
+		return pl
+	}
 	switch r.IntN(4) {
 	case 0:
 		pl.Cfg["prefill"] = int64(cmdc.VerifCap - r.IntN(4))
@@ -276,6 +280,10 @@ func renderValue(sp elemSpec, el entities.InfoElementWithValue) string {
 }
 
 func runC20(pl *plan.Plan, out *plan.Outcome) {
+	if cfgOr(pl, "pipeline", 0) == 1 {
+		runC20Pipeline(pl, out)
+		return
+	}
 	env := newEnv(pl, out, keepLogFlag)
 	cmdc.VerifClear()
 	nextID := 1
